@@ -217,6 +217,7 @@ impl Prop for C03 {
         let mut rng = SplitMix(ctx.seed ^ 0xC03);
         let mut secrets = fstar();
         secrets.push(rng.field());
+        secrets.extend(limb_patterns(ctx.seed));
         let exts = vec![big(0), big(1), p() - big(1), rng.field()];
         let ids = vec![big(0), big(1), big(99)];
         let signals: Vec<Vec<u8>> = vec![vec![], b"a".to_vec(), b"b".to_vec(), vec![b'a'; 136], vec![b'a'; 137]];
